@@ -5,7 +5,7 @@ use crate::engine::*;
 use crate::interp::RustGraph;
 use crate::run::*;
 use crate::settings::SettingsSpec;
-use crate::shape::{bisimilar, Graph, RegGraph};
+use crate::shape::{bisimilar, RegGraph};
 use scale_info::PortableRegistry;
 use serde_json::json;
 use std::time::Duration;
@@ -35,6 +35,104 @@ pub fn reg_kind(reg: &PortableRegistry, id: u32) -> String {
     }
 }
 
+/// Result of running the faithfulness oracle on one registry.
+pub enum Faith {
+    GenErr(ErrKind),
+    GenPanic(String),
+    Unparsable(String),
+    /// generation succeeded: token string and, per unfaithful id, (id, signature suffix, detail)
+    Checked {
+        tokens: String,
+        bad: Vec<(u32, String, String)>,
+        kinds: Vec<(String, bool)>,
+        executions: u64,
+    },
+}
+
+/// Generate, parse, interpret; for every id in `ids` compare the Rust type the generator names
+/// with the registry's shape.
+pub fn faithfulness(
+    registry: &PortableRegistry,
+    spec: &SettingsSpec,
+    ids: Option<&[u32]>,
+) -> Faith {
+    let settings = spec.build();
+    let tokens = match generate(registry, &settings) {
+        GenOutcome::Ok { tokens } => tokens,
+        GenOutcome::Err(e) => return Faith::GenErr(e),
+        GenOutcome::Panic(m) => return Faith::GenPanic(m),
+    };
+    let emitted = match parse_emitted(&tokens) {
+        Ok(e) => e,
+        Err(e) => return Faith::Unparsable(e),
+    };
+    let rust = RustGraph::new(&emitted, spec);
+    let reg = RegGraph(registry);
+    let all: Vec<u32> = (0..registry.types.len() as u32).collect();
+    let ids = ids.unwrap_or(&all);
+    let mut bad = vec![];
+    let mut kinds = vec![];
+    let mut executions = 1;
+    for &id in ids {
+        executions += 1;
+        let kind = reg_kind(registry, id);
+        let path = match resolve_path(registry, &settings, id) {
+            Ok(Ok(p)) => p,
+            Ok(Err(e)) => {
+                bad.push((
+                    id,
+                    format!("resolve-error/{}/{}", e.name(), kind),
+                    format!("generation succeeded but resolve_type_path({id}) fails with {e:?}"),
+                ));
+                continue;
+            }
+            Err(p) => {
+                bad.push((
+                    id,
+                    format!("resolve-panic/{}", truncate(&p, 60)),
+                    format!("generation succeeded but resolve_type_path({id}) panics: {}", truncate(&p, 120)),
+                ));
+                continue;
+            }
+        };
+        let ty: syn::Type = match syn::parse_str(&path) {
+            Ok(t) => t,
+            Err(e) => {
+                bad.push((
+                    id,
+                    format!("path-not-a-type/{kind}"),
+                    format!("resolve_type_path({id}) = `{path}` is not a Rust type: {e}"),
+                ));
+                continue;
+            }
+        };
+        let node = rust.node_of(&ty, &[]);
+        match bisimilar(&reg, id, &rust, node) {
+            Ok(()) => kinds.push((kind, true)),
+            Err(m) => {
+                kinds.push((kind.clone(), false));
+                bad.push((
+                    id,
+                    format!("shape/{}/{}", m.class, kind),
+                    format!(
+                        "id {id} ({kind}) named `{}`: at `{}` registry has {} but the generated Rust type has {}",
+                        crate::settings::squash(&path),
+                        m.at,
+                        truncate(&m.left, 160),
+                        truncate(&m.right, 160)
+                    ),
+                ));
+            }
+        }
+    }
+    Faith::Checked {
+        tokens,
+        bad,
+        kinds,
+        executions,
+    }
+}
+
 /// The C01 oracle on one (registry, settings) state. `ids`: which ids to check (None = all).
 pub fn check_case(case: &Case, ctx: &mut Ctx, ids: Option<&[u32]>) {
     let registry = match case.registry() {
@@ -48,99 +146,42 @@ pub fn check_case(case: &Case, ctx: &mut Ctx, ids: Option<&[u32]>) {
         ctx.exclude("root module name occurs as a path segment of the registry (outside the supported settings)");
         return;
     }
-    let settings = case.settings.build();
-    ctx.exec(1);
-    let tokens = match generate(&registry, &settings) {
-        GenOutcome::Ok { tokens } => tokens,
-        GenOutcome::Err(ErrKind::DuplicateTypePath(_)) => {
+    match faithfulness(&registry, &case.settings, ids) {
+        Faith::GenErr(ErrKind::DuplicateTypePath(_)) => {
+            ctx.exec(1);
             ctx.exclude("generation fails with DuplicateTypePath (C03/C04's subject)");
-            return;
         }
-        GenOutcome::Err(e) => {
+        Faith::GenErr(e) => {
             // not a success: C01 says nothing; C10 owns "generation never fails on well-formed input"
+            ctx.exec(1);
             ctx.note(format!("generation error {} (reported by C10)", e.name()), 1);
-            return;
         }
-        GenOutcome::Panic(m) => {
+        Faith::GenPanic(m) => {
+            ctx.exec(1);
             ctx.note(format!("generation panic `{}` (reported by C10)", truncate(&m, 60)), 1);
-            return;
         }
-    };
-    let emitted = match parse_emitted(&tokens) {
-        Ok(e) => e,
-        Err(e) => {
+        Faith::Unparsable(e) => {
+            ctx.exec(1);
             ctx.violation(
                 "C01/unparsable-module",
                 format!("emitted module does not parse: {e}"),
                 case.replay("C01"),
                 case.reg.size(),
             );
-            return;
         }
-    };
-    let rust = RustGraph::new(&emitted, &case.settings);
-    let reg = RegGraph(&registry);
-    let all: Vec<u32> = (0..registry.types.len() as u32).collect();
-    let ids = ids.unwrap_or(&all);
-    let mut outcome = vec![];
-    for &id in ids {
-        ctx.exec(1);
-        let kind = reg_kind(&registry, id);
-        let path = match resolve_path(&registry, &settings, id) {
-            Ok(Ok(p)) => p,
-            Ok(Err(e)) => {
-                ctx.violation(
-                    format!("C01/resolve-error/{}/{}", e.name(), kind),
-                    format!("generation succeeded but resolve_type_path({id}) fails with {e:?}"),
-                    case.replay("C01"),
-                    case.reg.size(),
-                );
-                continue;
+        Faith::Checked {
+            tokens,
+            bad,
+            kinds,
+            executions,
+        } => {
+            ctx.exec(executions);
+            for (_, sig, detail) in bad {
+                ctx.violation(format!("C01/{sig}"), detail, case.replay("C01"), case.reg.size());
             }
-            Err(p) => {
-                ctx.violation(
-                    format!("C01/resolve-panic/{}", truncate(&p, 60)),
-                    format!("generation succeeded but resolve_type_path({id}) panics: {}", truncate(&p, 120)),
-                    case.replay("C01"),
-                    case.reg.size(),
-                );
-                continue;
-            }
-        };
-        let ty: syn::Type = match syn::parse_str(&path) {
-            Ok(t) => t,
-            Err(e) => {
-                ctx.violation(
-                    format!("C01/path-not-a-type/{kind}"),
-                    format!("resolve_type_path({id}) = `{path}` is not a Rust type: {e}"),
-                    case.replay("C01"),
-                    case.reg.size(),
-                );
-                continue;
-            }
-        };
-        let node = rust.node_of(&ty, &[]);
-        match bisimilar(&reg, id, &rust, node) {
-            Ok(()) => outcome.push((kind, true)),
-            Err(m) => {
-                outcome.push((kind.clone(), false));
-                ctx.violation(
-                    format!("C01/shape/{}/{}", m.class, kind),
-                    format!(
-                        "id {id} ({kind}) named `{}`: at `{}` registry has {} but the generated Rust type has {}",
-                        crate::settings::squash(&path),
-                        m.at,
-                        truncate(&m.left, 160),
-                        truncate(&m.right, 160)
-                    ),
-                    case.replay("C01"),
-                    case.reg.size(),
-                );
-            }
+            ctx.outcome(&(crate::settings::squash(&tokens), kinds));
         }
-        let _ = reg.node(id);
     }
-    ctx.outcome(&(crate::settings::squash(&tokens), outcome));
 }
 
 /// WF8: the root module identifier must not occur as a path segment of a user type
@@ -187,6 +228,9 @@ pub fn run(tier: &str, seed: u64) -> i32 {
         }
     });
     report.add(st);
+    for st in crate::checks::families::generic_and_family_stats("C01", thorough, seed, true, &|c, ctx| check_case(c, ctx, None)) {
+        report.add(st);
+    }
     // D-chain: the Polkadot registry (de-duplicated, as every real user does) and every single-id closure
     let mut chain: Vec<Case> = vec![];
     for (sname, spec) in &settings {
